@@ -410,6 +410,10 @@ SPECS["C11"] = {
          "what": "2 events on two different sinks, 2 workers", "reach": ["quiescent"],
          "quick": {"params": {"SINKS": 2, "EVENTS": 2, "P": 1}, "two_pass": True, "unwind": 60, "wall_s": 900},
          "thorough": {"params": {"SINKS": 2, "EVENTS": 2, "P": 2}, "two_pass": True, "unwind": 60, "wall_s": 3000}},
+        {"name": "H3-ecal-report", "pkg": "interpreter", "files": _C11, "fn": "VerifC11EcalReport",
+         "what": "ECAL addEventAndWait on an event that fans out to two events on one sink (failing flags symbolic), 2 workers: the result seen by ECAL code, entry by entry", "reach": ["evaluated"],
+         "quick": {"params": {"P": 1}, "two_pass": True, "unwind": 60, "wall_s": 900},
+         "thorough": {"params": {"P": 2}, "two_pass": True, "unwind": 60, "wall_s": 3000}},
         {"name": "H2-shared-names", "pkg": "interpreter", "files": _C11, "fn": "VerifC11Sinks",
          "what": "2 events on one sink, 2 workers, the declaration scope optionally defines a variable named event; one pre-emption at ANY sync operation (scope locks included)", "reach": ["quiescent"],
          "quick": {"params": {"SINKS": 1, "EVENTS": 2, "P": 1, "GLOBALS": 1, "SYNC": 1}, "unwind": 60, "wall_s": 900},
@@ -512,6 +516,9 @@ SPECS["C03"] = {
          "what": "arithmetic group with numbers k/2, k in -32..31 (decidable operand domain)", "reach": ["evaluated", "compared"],
          "quick": None,
          "thorough": {"params": {"KINDS": 2, "GROUP": 0, "SMALLNUM": 1}, "unwind": 60, "wall_s": 3000, "timeout_ms": 30000}},
+        {"name": "H2-reeval", "pkg": "interpreter", "files": _C03, "fn": "VerifC03Reeval",
+         "what": "x OP [PRE] y parsed once, evaluated twice with fresh operand kinds/values in between (19 operators x 4 prefix forms): both outcomes equal the reference", "reach": ["evaluated", "compared"],
+         "quick": {"params": {"KINDS": 3}, "unwind": 60, "wall_s": 900, "timeout_ms": 3000}, "thorough": {"params": {"KINDS": 5}, "unwind": 60, "wall_s": 3000, "timeout_ms": 20000}},
         {"name": "H1-prefix", "pkg": "interpreter", "files": _C03, "fn": "VerifC03Prefix",
          "what": "PRE x OP y / x OP PRE y over 3 prefix x 19 binary operators", "reach": ["evaluated", "compared"],
          "quick": {"params": {"KINDS": 3}, "unwind": 60, "wall_s": 900}, "thorough": {"params": {"KINDS": 5}, "unwind": 60, "wall_s": 3000}},
